@@ -47,6 +47,7 @@ def shards(tier):
         for p in range(1, 64):
             out.append(("query", tier, p, 64))
     out.append(("illegal",))
+    out.append(("enums",))
     for a0 in range(0, 64, 16):
         out.append(("addr_sweep", a0, a0 + 16))
     return out
@@ -99,7 +100,13 @@ def check_limit(res, sel, val):
     from dali.gear.sequences import SetDT8TcLimit
     from dali.gear.colour import StoreColourTemperatureTcLimitDTR2 as L
     u, v, bus = mkbus()
-    selector = [m for m in L if m.value == sel][0]
+    from dalimc.spec import dt8_tables as T8
+    # the symbolic selector is looked up BY NAME in the literal table of the standard (never by the library's own numbering)
+    lname = [n for n, num in T8.STORE_TC_LIMIT_DTR2.items() if num == sel][0]
+    selector = getattr(L, lname, None)
+    if selector is None:
+        add_violation(res, "C14:limit-selector-missing", f"StoreColourTemperatureTcLimitDTR2 has no member {lname}", {"t": "limit", "sel": sel, "value": val})
+        return
     for form in (selector, sel):
         u, v, bus = mkbus()
         kind, r, n = G.run_sequence(SetDT8TcLimit(mkdest("short"), form, val), bus, 50)
@@ -184,6 +191,36 @@ def run_shard(shard):
     if k == "addr_sweep":
         run_addr_sweep(res, shard[1], shard[2])
         return res
+    if k == "enums":
+        # selector enums against the literal tables of the standard: same names, same numbers, nothing extra
+        from dali.gear import colour as C
+        from dalimc.spec import dt8_tables as T8
+        for ename, table in (("QueryColourValueDTR", T8.QUERY_COLOUR_VALUE_DTR), ("StoreColourTemperatureTcLimitDTR2", T8.STORE_TC_LIMIT_DTR2)):
+            lib = {m.name: int(m.value) for m in getattr(C, ename)}
+            for n in sorted(set(lib) | set(table)):
+                res["evaluations"] += 1
+                if lib.get(n) != table.get(n):
+                    add_violation(res, f"C14:selector-number:{ename}", f"{ename}.{n} = {lib.get(n)}, IEC 62386-209 says {table.get(n)}",
+                                  {"t": "enums", "enum": ename, "name": n})
+            res["distinct"].add(("enum", ename))
+        # set each limit by NAME, read it back by NAME (unit model numbered per the standard)
+        from dali.gear.sequences import SetDT8TcLimit, QueryDT8ColourValue
+        for lname, qname in T8.LIMIT_READBACK.items():
+            u, v, bus = mkbus()
+            sel = getattr(C.StoreColourTemperatureTcLimitDTR2, lname, None)
+            q = getattr(C.QueryColourValueDTR, qname, None)
+            if sel is None or q is None:
+                continue
+            val = 0x0100 + T8.STORE_TC_LIMIT_DTR2[lname]
+            G.run_sequence(SetDT8TcLimit(mkdest("short"), sel, val), bus, 50)
+            u.colour_values = {T8.QUERY_COLOUR_VALUE_DTR[n]: u.tc_limits[T8.STORE_TC_LIMIT_DTR2[l]] for l, n in T8.LIMIT_READBACK.items()}
+            kind, r, n = G.run_sequence(QueryDT8ColourValue(mkdest("short"), q), bus, 50)
+            res["evaluations"] += 1
+            if kind != "return" or r != val:
+                add_violation(res, "C14:limit-readback", f"limit {lname} set to {val:#06x} and read back through {qname}: {kind} {r!r}",
+                              {"t": "enums", "enum": "readback", "name": lname})
+        sample(res, {"selector_enums": ["QueryColourValueDTR", "StoreColourTemperatureTcLimitDTR2"]})
+        return res
     if k == "set":
         _, dest, p, n, tier = shard
         vs = [x for i, x in enumerate(values(tier)) if i % n == p]
@@ -254,6 +291,8 @@ def run_shard(shard):
 
 
 def replay(case):
+    if case.get("t") == "enums":
+        return run_shard(("enums",))["violations"]
     if "sa" in case:
         r = new_result()
         run_addr_sweep(r, case["sa"], case["sa"] + 1)
